@@ -277,14 +277,25 @@ def ob_cutoff_table(rep, world, tier):
     from stereomolgraph.coords import BondsFromDistance
     from stereomolgraph.periodic_table import COVALENT_RADII
 
-    bad = None
+    bad, replay = None, None
     for order in (list(range(1, 119)), list(range(118, 0, -1))):
-        b = BondsFromDistance()
-        arr = b.connectivity_cutoff.array(order)
+        try:
+            b = BondsFromDistance()
+            arr = b.connectivity_cutoff.array(order)
+        except Exception as e:  # noqa  (the table must exist for every element: an exception is the violation)
+            bad = (f"array({order[:3]}...) raised {type(e).__name__}: {e}",)
+            replay = (f"from stereomolgraph.coords import BondsFromDistance\ntry:\n    BondsFromDistance().connectivity_cutoff.array({order!r})\n    ok = True\n"
+                      "except Exception as e:\n    print(type(e).__name__, e)\n    ok = False\n"
+                      "print('property holds on this case' if ok else 'VIOLATION reproduced')\nsys.exit(0 if ok else 1)\n")
+            continue
         for i, ei in enumerate(order):
             for j, ej in enumerate(order):
                 exp = 0.0 if i == j else 1.2 * (COVALENT_RADII[ei] + COVALENT_RADII[ej])
                 if abs(arr[i][j] - exp) > 1e-12 or arr[i][j] != arr[j][i]:
                     bad = (ei, ej, arr[i][j], exp)
+                    replay = (f"from stereomolgraph.coords import BondsFromDistance\nfrom stereomolgraph.periodic_table import COVALENT_RADII\n"
+                              f"arr = BondsFromDistance().connectivity_cutoff.array([{ei}, {ej}])\nexp = 1.2 * (COVALENT_RADII[{ei}] + COVALENT_RADII[{ej}])\nprint(arr, exp)\n"
+                              f"ok = {ei} == {ej} or (abs(arr[0][1] - exp) <= 1e-12 and arr[0][1] == arr[1][0] and arr[0][0] == 0)\n"
+                              "print('property holds on this case' if ok else 'VIOLATION reproduced')\nsys.exit(0 if ok else 1)\n")
     obs.append(Ob("C20/coords.py:_DefaultFuncDict.array/symmetric-cutoff-1.2(r_i+r_j)-zero-diagonal(all 118x118 pairs, both fill orders)", "proof",
-                  DISCHARGED if bad is None else FAILED, "enum", time.time() - t, detail=f"{bad}"))
+                  DISCHARGED if bad is None else FAILED, "enum", time.time() - t, detail=f"{bad}", replay_code=replay))
